@@ -103,6 +103,10 @@ class _Comp:
         if kind == z3.Z3_OP_IMPLIES:
             a, b = self.negated(t.arg(0)), self.boolean(t.arg(1))
             return lambda x: min(a(x), b(x))
+        if kind == z3.Z3_OP_EQ and z3.is_bool(t.arg(0)):
+            a, b = self.boolean(t.arg(0)), self.boolean(t.arg(1))
+            na, nb = self.negated(t.arg(0)), self.negated(t.arg(1))
+            return lambda x: min(a(x) + b(x), na(x) + nb(x))
         if kind in (z3.Z3_OP_LE, z3.Z3_OP_LT, z3.Z3_OP_GE, z3.Z3_OP_GT, z3.Z3_OP_EQ, z3.Z3_OP_DISTINCT):
             a, b = self.num(t.arg(0)), self.num(t.arg(1))
             eps = 1e-9
@@ -141,6 +145,10 @@ class _Comp:
             a, b = t.arg(0), t.arg(1)
             mk = {z3.Z3_OP_GT: a > b, z3.Z3_OP_GE: a >= b, z3.Z3_OP_LT: a < b, z3.Z3_OP_LE: a <= b}[flip[kind]]
             return self.boolean(mk)
+        if kind == z3.Z3_OP_EQ and z3.is_bool(t.arg(0)):
+            a, b = self.boolean(t.arg(0)), self.boolean(t.arg(1))
+            na, nb = self.negated(t.arg(0)), self.negated(t.arg(1))
+            return lambda x: min(a(x) + nb(x), na(x) + b(x))
         if kind == z3.Z3_OP_EQ and z3.is_real(t.arg(0)):
             return self.boolean(t.arg(0) != t.arg(1))
         if kind == z3.Z3_OP_DISTINCT:
